@@ -113,8 +113,8 @@ func c11WorldExtras() []*bfsSpec {
 		// peer exchange at the level of the torrent: who is announced to whom, under which address, and who is dropped
 		{Name: "c11-pex-world", Cfg: worldCfg{Geom: "g2x2", Peers: []peerCfg{pexer, natted, incoming}, AutoDrain: true},
 			// (stall + flood: remote 0 has stopped reading and storrent's writer to it is more
-			// than half full when a PEX round comes)
-			Alphabet: []string{"adv:61", "adv:2", "close:1", "close:2", "addpeer:2", "addpeer:6", "stall:0", "flood:0:251", "resume:0"},
+			// than half full - 40 of 64 slots - when a PEX round comes)
+			Alphabet: []string{"adv:61", "adv:2", "close:1", "close:2", "addpeer:2", "addpeer:6", "stall:0", "flood:0:40", "resume:0"},
 			Depth: 4, DepthT: 5, Live: pexLiveness},
 		{Name: "c11-pex-world-natted-first", Cfg: worldCfg{Geom: "g2x2", Peers: []peerCfg{natted, pexer}, AutoDrain: true},
 			Alphabet: []string{"adv:61", "adv:2", "close:0", "close:1", "addpeer:2", "addpeer:6"},
